@@ -2864,9 +2864,14 @@ MANIFEST = {
             "poly_zero_of_eval_zero. "
             "(6) The nat Conv normaliser data.nat.norm_full (the one nat_norm uses; not built on util/poly.py): norm_sound, "
             "norm_sound_int, norm_full_poly_invariant (the normal form has the identical polynomial as the term), "
-            "norm_full_eq_poly_partial (same normal form => same polynomial), norm_idem_partial, norm_canonical_partial. NOT "
-            "proved: same polynomial => same normal form (canonicity) and isNF(norm t). Truncated subtraction, powers and "
-            "applications are atoms of this normaliser. "
+            "norm_full_eq_poly_partial (same normal form => same polynomial), norm_nf_closed (the result ALWAYS has the "
+            "normal-form shape isNF: norm_add_monomial / norm_add_polynomial / norm_mult_atom / norm_mult_monomial / "
+            "norm_mult_poly_monomial / norm_mult_polynomial preserve it), norm_idem (normalising a normal form changes "
+            "nothing, for every term), norm_fixed_of_isNF, norm_canonical_partial (Suc/x+0/x*0 only). The model's fastCmp now "
+            "decides an atom against a product of the same size as fast_compare does (atom shapes; compared with the real "
+            "function by the bodycmp stream) and is proved antisymmetric with eq only on identical bodies. NOT proved: same "
+            "polynomial => same normal form (canonicity); what remains is injectivity of normal-form trees -> polynomial. "
+            "Truncated subtraction, powers and applications are atoms of this normaliser. "
             "(7) The integer Conv normaliser (simp_full, int_norm_conv, int_norm_eq) is modelled (IntModel.lean) and compared tree "
             "for tree with the real conversions' right-hand sides: int_norm_sound (value preserved in Z), int_norm_eq_sound (the "
             "returned lhs = 0 is equivalent to a = b), int_norm_canonical_partial (normal form has the polynomial of the term; same "
